@@ -300,30 +300,29 @@ theorem quiescent_is_waiting (cp : CP) (i : Nat) (cp' : CP) (hdc : DCI cp)
 
 /-! ## B4: every own request id of the head completion message is consumed -/
 
+theorem setDisp_inflight_sub (X : CP) (i : Nat) (d : Disp)
+    (hsub : ∀ e ∈ d.inflight, e ∈ (X.disp i).inflight) :
+    ∀ e ∈ ((X.setDisp i d).disp i).inflight, e ∈ (X.disp i).inflight := by
+  intro e he
+  rw [disp_setDisp] at he
+  by_cases hc : i = i ∧ i < X.disps.length
+  · rw [if_pos hc] at he; exact hsub e he
+  · rw [if_neg hc] at he; exact he
+
 theorem completeOne_inflight_sub (cp : CP) (i id : Nat) :
     (∀ e ∈ ((completeOne cp i id).disp i).inflight, e ∈ (cp.disp i).inflight) ∧
     (completeOne cp i id).disps.length = cp.disps.length := by
-  unfold completeOne
   cases hf : (cp.disp i).inflight.find? (·.1 = id) with
-  | none => simp only [hf]; exact ⟨fun e he => he, rfl⟩
+  | none => rw [completeOne_none cp i id hf]; exact ⟨fun e he => he, rfl⟩
   | some e0 =>
     obtain ⟨x, dl⟩ := e0
+    unfold completeOne
     simp only [hf]
     cases free (cp.pool.getD dl.cu default) dl.key with
     | none =>
-      refine ⟨?_, by simp [CP.setDisp]⟩
-      intro e he
-      rw [disp_setDisp] at he
-      split at he
-      · exact (List.mem_filter.1 he).1
-      · exact he
+      exact ⟨setDisp_inflight_sub _ i _ (fun e he => (List.mem_filter.1 he).1), by simp [CP.setDisp]⟩
     | some cu' =>
-      refine ⟨?_, by simp [CP.setDisp]⟩
-      intro e he
-      rw [disp_setDisp] at he
-      split at he
-      · exact (List.mem_filter.1 he).1
-      · exact he
+      exact ⟨setDisp_inflight_sub _ i _ (fun e he => (List.mem_filter.1 he).1), by simp [CP.setDisp]⟩
 
 theorem consume_inflight_sub (i : Nat) : ∀ (ids : List Nat) (cp : CP),
     (∀ e ∈ ((consume i ids cp).1.disp i).inflight, e ∈ (cp.disp i).inflight) ∧
@@ -423,5 +422,16 @@ theorem own_completion_is_consumed (cp : CP) (i n : Nat) (ids : List Nat) (rest 
     · split
       · exact hshrink _ (procMsgs_inflight_sub i n { (consume i ids cp).1 with cuIn := rest })
       · exact hc
+
+/-- concrete run (one dispatcher, one CU with two VGPR units): after the launch is accepted the next
+    dispatcher tick makes progress and maps work-group 0 and 1 of launch 7 with request ids 0 and 1 -/
+example :
+    let cp := run (mkCP ⟨false, 0, 0, 0, 0⟩ 1
+        [{ wfFree := [2], smask := .lim [0, 0], vmasks := [.lim [0, 0]], lmask := .lim [0, 0],
+           nextSIMD := 0, resident := [] }])
+      [.launch ⟨7, 128, 64, 16, 4, 256⟩, .tick]
+    (cp.disp 0).kern.isSome = true ∧ (dispTick cp 0).2 = true ∧
+    mapsOf (dispTick cp 0).1.log 7 = [0, 1] ∧ (dispTick (dispTick cp 0).1 0).2 = false := by
+  decide
 
 end C09
